@@ -287,6 +287,11 @@ def segmentations(n, lens, rng):
             toks.append("2")
             pos += 2
     segs.append(",".join(toks + ["R"]))
+    # chunking options set after the first data (refused; error cleared; the writer carries on): same file
+    if n >= 3:
+        a = max(1, min(n // 3, 50000))
+        segs.append("%d,Om1,%d,On65536,R" % (a, max(1, min(n - a - 1, 20000))))
+        segs.append("1,Ox4096,On1,*32768")
     return segs
 
 
